@@ -144,6 +144,7 @@ RX_LISTS = [
     (["[a-c]x", "[^a-z]+$", "\\d{3}", "[A-Z][a-z]+\\Z"], ["ax", "Ax", "dx", "123", "12a", "1234", "Anna", "anna", "ANNA", "Anna1", "AX"]),
     (["staff.*", "stu.*t$", ".*@example\\.org$"], ["staff@other.org", "student", "students", "x@example.org", "x@example.org.evil", "Staff"]),
     (["bob", "(?i)anna"], ["BOB", "bob", "ANNA", "Anna"]),
+    (["carol", "(?s)a.b", "c.d\\Z"], ["a\nb", "c\nd", "Carol", "carols", "cxd"]),
     (["(?i)^s3", "cret", "s3cre[t]\\Z"], ["S3CRET", "s3cret", "cret", "CRET", "xcret", "S3"]),
     (["(?i)(?:anna|bob)$", "[c-d]arol|dave", "eve.*"], ["ANNA", "BOBx", "Carol", "carol", "DAVE", "dave", "Eve", "evening"]),
 ]
@@ -454,6 +455,18 @@ def gen_sp(rng, i):
     return spd
 
 
+def sp_eattrs(spd):
+    """the Attribute children of the SP's EntityAttributes element as written by sp_metadata: [(Name, values)]"""
+    if spd.get("ea") is not None:
+        return [(n, list(vs)) for n, vs in spd["ea"]]
+    ea = []
+    if spd.get("ecs_support"):
+        ea.append((EC_SUPPORT, list(spd["ecs_support"])))
+    if spd["ecs"] is not None:
+        ea.append((EC_ATTR, list(spd["ecs"])))
+    return ea
+
+
 def sp_view(spd):
     """what the metadata store must report for this SP (the model's input)"""
     if not spd["acs"]:
@@ -501,6 +514,35 @@ def sp_metadata(spd):
     return str(ed)
 
 
+def gen_world_policy(rng, sps, modules):
+    r = rng.random()
+    if r < 0.06:
+        pol = None
+    else:
+        pol = {}
+        if rng.random() < 0.85:
+            pol["default"] = gen_spec(rng, modules, True)
+        for spd in rng.sample(sps, rng.choice([0, 1, 2, 3, 4])):
+            pol[spd["eid"]] = gen_spec(rng, modules, False)
+        if pol and rng.random() < 0.04:
+            pol[rng.choice(sps)["eid"]] = None       # a None entry: TypeError on every lookup for that SP
+        if not pol:
+            pol = None
+    return pol, rng.choice([None, pol, pol])
+
+
+def mk_world(ctx, *a, **k):
+    """every generated policy is valid (each expression compiles on its own): a configuration the library rejects is reported"""
+    try:
+        return [World(*a, **k)]
+    except Exception as e:  # noqa
+        sps, pol, aa = k["fixed"] if k.get("fixed") else (None, None, None)
+        ctx.oracle_fail("policy-compile:valid-configuration-rejected:%s" % type(e).__name__,
+                        "building Server/Policy raised %s: %s for policy %s" % (type(e).__name__, e, json.dumps(pol, ensure_ascii=False)),
+                        {"unit": "compile", "policy": pol, "sps": sps})
+        return []
+
+
 class World(object):
     """one policy configuration + SP metadata set, ONE Server and ONE Policy for all its requests"""
 
@@ -509,20 +551,7 @@ class World(object):
             self.sps, self.pol, self.aa_pol = fixed
         else:
             self.sps = [gen_sp(rng, i) for i in range(nsp)]
-            r = rng.random()
-            if r < 0.06:
-                self.pol = None
-            else:
-                self.pol = {}
-                if rng.random() < 0.85:
-                    self.pol["default"] = gen_spec(rng, modules, True)
-                for spd in rng.sample(self.sps, rng.choice([0, 1, 2, 3, 4])):
-                    self.pol[spd["eid"]] = gen_spec(rng, modules, False)
-                if self.pol and rng.random() < 0.04:
-                    self.pol[rng.choice(self.sps)["eid"]] = None       # a None entry: TypeError on every lookup for that SP
-                if not self.pol:
-                    self.pol = None
-            self.aa_pol = rng.choice([None, self.pol, self.pol])
+            self.pol, self.aa_pol = gen_world_policy(rng, self.sps, modules)
         self.by_id = {s["eid"]: s for s in self.sps}
         conf = env.idp_conf()
         if self.pol is None:
@@ -997,25 +1026,38 @@ def missing_worlds(rng, modules):
     return out
 
 
-def rx_feature_worlds(rng, modules):
+def rx_feature_worlds(ctx, rng, modules):
     """fixed worlds: every feature list of RX_LISTS under its own attribute name, in the default entry, rotated in a per-SP entry
     (another list under the same name: nothing may carry over between compiled specs), reversed order in a third; one identity
     per list holding all its designed values (+ a never-listed attribute), and one identity holding everything"""
+    late = [l for l in RX_LISTS if any(p.startswith("(?") and p[2] != ":" for p in l[0][1:])]
+    ws = [_rx_feature_world(ctx, rng, modules, [l for l in RX_LISTS if l not in late], "rxf"),
+          _rx_feature_world(ctx, rng, modules, late, "rxl")]
+    return [w for w in ws if w is not None]
+
+
+def _rx_feature_world(ctx, rng, modules, RX_LISTS, tag):
     names = [a[0] for a in ATTRS if a[0] != "PVP-MAIL"][:len(RX_LISTS)]
-    sps = [{"eid": "https://rxf0.example.org/sp", "acs": [], "ecs": None},
-           {"eid": "https://rxf1.example.org/sp", "acs": [], "ecs": None},
-           {"eid": "https://rxf2.example.org/sp", "ecs": None,
+    sps = [{"eid": "https://%s0.example.org/sp" % tag, "acs": [], "ecs": None},
+           {"eid": "https://%s1.example.org/sp" % tag, "acs": [], "ecs": None},
+           {"eid": "https://%s2.example.org/sp" % tag, "ecs": None,
             "acs": [[_ra(n, False, "uri" if i % 2 else "friendly") for i, n in enumerate(names)]]},
-           {"eid": "https://rxf3.example.org/sp", "acs": [], "ecs": [COCO]}]
+           {"eid": "https://%s3.example.org/sp" % tag, "acs": [], "ecs": [COCO]}]
     n = len(RX_LISTS)
     lt = {"minutes": 15}
     ar0 = {(nm if i % 3 else nm.upper()): list(RX_LISTS[i][0]) for i, nm in enumerate(names)}
     ar1 = {nm: list(RX_LISTS[(i + 1) % n][0]) for i, nm in enumerate(names)}
-    ar3 = {nm: list(reversed(RX_LISTS[i][0])) for i, nm in enumerate(names)}
+    ar3 = {nm: (list(reversed(RX_LISTS[i][0])) if tag == "rxl" else list(RX_LISTS[(i + 2) % n][0])) for i, nm in enumerate(names)}
     pol = {"default": {"lifetime": lt, "attribute_restrictions": ar0},
            sps[1]["eid"]: {"lifetime": lt, "attribute_restrictions": ar1},
            sps[3]["eid"]: {"lifetime": lt, "attribute_restrictions": ar3, "entity_categories": []}}
-    w = World(rng, 0, modules, fixed=(sps, pol, pol))
+    try:
+        w = World(rng, 0, modules, fixed=(sps, pol, pol))
+    except Exception as e:  # noqa
+        ctx.oracle_fail("policy-compile:valid-configuration-rejected:%s" % type(e).__name__,
+                        "building Server/Policy raised %s: %s for policy %s" % (type(e).__name__, e, json.dumps(pol, ensure_ascii=False)),
+                        {"unit": "compile", "policy": pol, "sps": sps})
+        return None
     script = []
     full = {}
     for i, nm in enumerate(names):
@@ -1029,7 +1071,7 @@ def rx_feature_worlds(rng, modules):
         for kind in ("authn", "attr", "restrict", "setup", "authn-rp"):
             script.append((kind, spd["eid"], copy.deepcopy(full)))
     w.script = script
-    return [w]
+    return w
 
 
 def unit_worlds(ctx):
@@ -1037,7 +1079,7 @@ def unit_worlds(ctx):
     modules = translate_c07.ec_module_names()
     nworld = 26 if ctx.quick else 220
     nreq = 45 if ctx.quick else 90
-    per = {k: [] for k in ("policy_filter", "restrict", "setup_assertion", "e2e_authn", "e2e_attribute")}
+    per = {k: [] for k in ("policy_filter", "restrict", "setup_assertion", "e2e_authn", "e2e_attribute", "md_entity_categories")}
     worlds = []
     # fixed worlds: one per entity-category module over the SPs of ec_world (every documented row is walked), + F3 witness world
     ecsps = ec_world(rng)
@@ -1064,9 +1106,12 @@ def unit_worlds(ctx):
     rx_world.script = [(k, e["eid"], copy.deepcopy(rx_ident)) for e in rx_sps for k in ("authn", "attr", "restrict")]
     worlds.append(rx_world)
     worlds += missing_worlds(rng, modules)
-    worlds += rx_feature_worlds(rng, modules)
+    worlds += rx_feature_worlds(ctx, rng, modules)
+    nfixed_all = len(worlds)
     for i in range(nworld):
-        worlds.append(World(rng, len(worlds), modules))
+        sps = [gen_sp(rng, j) for j in range(7)]
+        pol, aa = gen_world_policy(rng, sps, modules)
+        worlds += mk_world(ctx, rng, len(worlds), modules, fixed=(sps, pol, aa))
     unit_entity_categories(ctx, worlds[-1])
     full_ec_ident = {}
     for n in sorted({a for m in DOC_EC.values() for attrs, _ in m.values() for a in attrs}):
@@ -1103,7 +1148,13 @@ def unit_worlds(ctx):
             # the metadata lookup the category filter rests on: only values listed under the entity-category Name count
             got = call(w.server.metadata.entity_categories, spd["eid"])
             want = w.view(spd["eid"])["ecs"]
-            ctx.evaluations += 1
+            if wi == 0 or wi >= nfixed_all:
+                per["md_entity_categories"].append(dict(
+                    id=len(per["md_entity_categories"]), impl=got,
+                    coq=clist(sp_eattrs(spd), lambda e: "(%s, %s)" % (cstr(e[0]), clist(e[1], cstr))),
+                    show={"sp": spd["eid"], "EntityAttributes": sp_eattrs(spd)}))
+            else:
+                ctx.evaluations += 1
             if spd.get("ea") is not None or spd.get("ecs_support"):
                 ctx.count("metadata:EntityAttributes-with-several-attribute-names")
             if got != want:
@@ -1206,6 +1257,7 @@ def unit_worlds(ctx):
                    "(pcase * (list decl * list decl))", per["policy_filter"], shard=60)
     ctx.correspond("restrict", "Model.Policy", "run_restrict", "pcase", per["restrict"], shard=60)
     ctx.correspond("setup_assertion", "Model.Policy", "fun x => run_setup (fst x) (snd x)", "(pcase * bool)", per["setup_assertion"], shard=60)
+    ctx.correspond("md_entity_categories", "Model.PolicyRx", "run_md_ecs", "eattrs", per["md_entity_categories"], shard=150)
     ctx.correspond("e2e_authn", "Model.Policy", "run_authn", "pcase", per["e2e_authn"], shard=60)
     ctx.correspond("e2e_attribute", "Model.Policy", "fun x => run_attribute (fst x) (snd x)", "(pcase * bool)", per["e2e_attribute"], shard=60)
     ctx.extra["worlds"] = len(worlds)
@@ -1274,6 +1326,8 @@ def replay(ctx, payload):
         rel = dict(got[1]) if isinstance(got, list) and len(got) > 1 else got if isinstance(got, dict) else None
         if rel is not None:
             print("oracle:", violates(w.acs, inp["policy"], w.view(inp["sp"]), inp["sp"], inp["identity"], {k: list(v) for k, v in rel.items()}))
+    elif unit == "compile":
+        print("implementation:", call(lambda: World(ctx.rng, 0, [], fixed=(inp["sps"], inp["policy"], inp["policy"])) and "accepted"))
     elif unit == "md_entity_categories":
         w = World(ctx.rng, 0, [], fixed=(inp["sps"], None, None))
         print("implementation:", call(w.server.metadata.entity_categories, inp["sp"]), " entity-category attribute lists:", w.view(inp["sp"])["ecs"])
